@@ -141,6 +141,27 @@ def d4(ctx, prog, base, bl, fc, fc_body):
     ctx.check(ok, 'C08-D4', f'{base.key}::initial reference', 'the bookkeeping does not start from [0] (no traces, no point yet)', 'bookkeeping starts at [0]', base.mod.relpath)
 
 
+def d5(ctx, prog, base):
+    """"Requesting convergence traces never changes the final results": every convergence point is an extra compute() between two
+    updates, so the clause is exactly the purity of the compute closure of every attack distinguisher - the analysis of C01-D5
+    (alias / freshness classes of everything compute writes), run here over the classes an attack can be built from and reported
+    under this property."""
+    from . import c01
+    ctx.rule('C08-D5', 'an intermediate compute() leaves the accumulators of every attack distinguisher as they were (compute closure without persistent effect: the analysis of C01-D5 over the attack classes)')
+    us, concrete = c01.units(prog)
+    n = 0
+    for u in us:
+        if base not in prog.mro(u.cls):
+            continue
+        u.guard = c01.find_guard(prog, u)
+        u.acc = universe.accumulators(prog, u.cls, u.init)
+        if not u.acc:
+            raise AnalysisError(f'no accumulator discovered for {u.cls.key}')
+        c01.d5(ctx, prog, u.cls, u.compute, u.acc, u.count, u.guard or '', rule='C08-D5')
+        n += 1
+    ctx.floor('attack classes whose compute closure is analysed', n, 8)
+
+
 def run(ctx, prog):
     from .. import universe as _uni0
     _uni0.inline_base_entry_points(ctx, prog)
@@ -154,6 +175,8 @@ def run(ctx, prog):
     attacks = [c for c in universe.analysis_classes(prog, concrete) if base in prog.mro(c)]
     if not attacks:
         raise AnalysisError('no attack class found')
+
+    d5(ctx, prog, base)
 
     def keep(ev, fl):
         return ev[0] == 'call' and ev[1] in ('self.process', 'self.update', 'self.compute_results', 'self._compute_convergence_traces', 'self.compute')
